@@ -521,6 +521,7 @@ class Node:
         nt._read_queue = queue.Queue(10000)
         nt._quit_recv_event = FakeStopEvent(nt._read_queue)
         nt._known_message_ids = collections.deque(maxlen=maxlen)
+        nt._own_message_ids = collections.deque()
         self.nt = nt
         self.wsd._networking_thread = nt
         self.wsd._server_started = True
@@ -709,8 +710,8 @@ class TableModel:
             self.best.pop(epr, None)
         else:
             self.best[epr] = max(self.best.get(epr, version), version)
-        for _ in range(own_messages):     # ids of the node's own outbound messages are remembered too
-            self.remembered.appendleft(object())
+        del own_messages     # ids of the node's own outbound messages are remembered separately (by age): they no longer
+        #                      take room in the memory for received ids
 
 
 def _step(node, model, orc, kind, epr, version, mid, bare, tag):
@@ -825,8 +826,8 @@ def dup_evict(m1: int, m2: int, m3: int, m4: int, m5: int, maxlen: int) -> str:
 def dup_evict_outbound(m1: int, m2: int, m3: int, m4: int, b1: bool, b2: bool, b3: bool, b4: bool, maxlen: int) -> str:
     """
     Four Hellos (versions 1..4, one EPR, message ids from a pool of 3) on a node that remembers `maxlen` ids; a Hello may lack
-    XAddrs (b*), which makes the node SEND a Resolve whose own id enters the same memory: a received id must still be acted on
-    iff it is not among the last `maxlen` ids the node saw or sent.
+    XAddrs (b*), which makes the node SEND a Resolve (own ids have a memory of their own): a received id must still be acted on
+    iff it is not among the last `maxlen` ids the node received.
     pre: 0 <= m1 < 3
     pre: 0 <= m2 < 3
     pre: 0 <= m3 < 3
@@ -895,10 +896,16 @@ PROBE_T = ((), (T1,), (T2,), (T1, T2), (T3,))
 SENDER = ('192.0.2.9', 5555)
 
 
-def probe_answer(ka: int, pt: int, pk: int, pi: int, pj: int, rule: int) -> str:
+OLD_NS_DECL = b' xmlns:wsd2005="http://schemas.xmlsoap.org/ws/2005/04/discovery"'
+
+
+def probe_answer(ka: int, pt: int, pk: int, pi: int, pj: int, rule: int, decl: bool = False, race: bool = False) -> str:
     """
     Two services published through publish_service (A: kind by selector, B: types T1,T2 / scopes X:/a/b y:/a); one Probe
     datagram through the reader: ProbeMatches are queued for exactly the matching services, related to the Probe, to its sender.
+    decl: the (valid 2009/01) Probe carries an unused namespace declaration that names the 2005/04 discovery namespace;
+    race: while the Probe is matched, the application publishes a third service (the answer must name at least the services
+    published before).
     pre: 0 <= ka < 4
     pre: 0 <= pt < 5
     pre: 0 <= pk < 4
@@ -920,12 +927,31 @@ def probe_answer(ka: int, pt: int, pk: int, pi: int, pj: int, rule: int) -> str:
                 node.wsd.publish_service(epr, list(types), _mk_scopes(scopes), ['http://192.0.2.1/x'])
             node.drain()
             probe_types, probe_scopes, r = PROBE_T[pt], _idx_opt(pk, pi, pj), F_RULES[rule]
-            handled = node.receive(probe_dgram(probe_types, probe_scopes, r, MIDS[0]), SENDER)
+            data = probe_dgram(probe_types, probe_scopes, r, MIDS[0])
+            if decl:
+                i = data.index(b'Envelope') + len(b'Envelope')
+                data = data[:i] + OLD_NS_DECL + data[i:]
+            real_matches = wsdimpl.matches_filter
+            if race:
+                fired = []
+
+                def racing(*a, **k):
+                    if not fired:
+                        fired.append(1)
+                        node.wsd.publish_service('urn:pc', list(PUB_KINDS[1][0]), _mk_scopes(PUB_KINDS[1][1]), ['http://192.0.2.1/z'])
+                    return real_matches(*a, **k)
+                wsdimpl.matches_filter = racing
+            try:
+                handled = node.receive(data, SENDER)
+            finally:
+                wsdimpl.matches_filter = real_matches
             orc.check(handled and not node.handler_errors, 'probe-handler-raised-or-not-dispatched')
             expected = sorted(e for e, (t, s) in published.items() if ref_filter(t, s, probe_types, probe_scopes, r))
             answered = []
             for out in node.outbound():
                 rm = read_back(out)
+                if race and rm.action == wsd_types.HelloType.action:
+                    continue        # the Hello of the service published meanwhile
                 orc.check(rm.action == wsd_types.ProbeMatchesType.action, 'probe-caused-other-message-than-probematches')
                 orc.check((out.addr, out.port) == SENDER, 'probematches-not-sent-to-prober')
                 rel = rm.p_msg.header_info_block.RelatesTo
@@ -933,7 +959,7 @@ def probe_answer(ka: int, pt: int, pk: int, pi: int, pj: int, rule: int) -> str:
                 for m in wsd_types.ProbeMatchesType.from_node(rm.p_msg.msg_node).ProbeMatch:
                     answered.append(m.EndpointReference.Address)
             orc.check(all(e in answered for e in expected), 'matching-published-service-not-in-probe-answer')
-            orc.check(all(e in expected for e in answered), 'non-matching-service-in-probe-answer')
+            orc.check(all(e in expected or (race and e == 'urn:pc') for e in answered), 'non-matching-service-in-probe-answer')
             orc.check(len(answered) == len(set(answered)), 'service-answered-twice')
         except Exception as ex:  # noqa: BLE001
             return exc_result(orc, ex, 'probe')
@@ -984,4 +1010,73 @@ def resolve_answer(o1: int, o2: int, o3: int, r: int) -> str:
                 orc.check(len(outs) == 0, 'resolve-for-unpublished-epr-answered')
         except Exception as ex:  # noqa: BLE001
             return exc_result(orc, ex, 'resolve')
+        return orc.result()
+
+
+# percent-encoded path segments: equal iff the decoded OCTETS are equal (not: iff they decode to the same replacement characters)
+OCTET_SEGS = ('%E4', '%F6', '%FF', '%FE', '%C3%A4', '\u00e4', '%80%81', '%C0%AF', 'a', '%61')
+
+
+def scope_octets(i: int, j: int, deeper: bool) -> str:
+    """
+    match_scope(x:/p/<seg i>, x:/p/<seg j>[/q]) under the default rule for percent-encoded segments whose octets are not utf-8
+    (latin-1 umlauts, 0xFF ...): match iff the decoded octets are equal.
+    pre: 0 <= i < 10
+    pre: 0 <= j < 10
+    post: __return__ == 'ok'
+    """
+    from urllib.parse import unquote_to_bytes
+    r10 = tuple(range(10))
+    i, j, deeper = pick(i, r10), pick(j, r10), bool(deeper)
+    with untraced():
+        orc = Oracle()
+        try:
+            a, b = OCTET_SEGS[i], OCTET_SEGS[j]
+            got = wsdimpl.match_scope('x:/p/' + a, 'x:/p/' + b + ('/q' if deeper else ''), None)
+            want = unquote_to_bytes(a) == unquote_to_bytes(b)
+            orc.check(got == want, 'different-octets-match' if got else 'equal-octets-do-not-match')
+        except Exception as ex:  # noqa: BLE001
+            return exc_result(orc, ex, 'octets')
+        return orc.result()
+
+
+def same_version_partial(k2: int, mode: int) -> str:
+    """
+    Hello(v1, Types + Scopes + XAddrs) followed by a ProbeMatches / ResolveMatches of the SAME metadata version that omits
+    Types (mode 0), carries an empty Scopes element (1) or omits both (2): the recorded announcement still has what version 1
+    announced, the service is still found by type and by scope.
+    pre: 1 <= k2 <= 2
+    pre: 0 <= mode <= 2
+    post: __return__ == 'ok'
+    """
+    k2, mode = pick(k2, (1, 2)), pick(mode, (0, 1, 2))
+    with untraced():
+        orc = Oracle()
+        try:
+            node = Node()
+            node.receive(dgram('hello', 'urn:e1', 1, MIDS[0]))
+            kind = KINDS[k2]
+            p = wsd_types.ProbeMatchesType() if kind == 'probematches' else wsd_types.ResolveMatchesType()
+            m = wsd_types.ProbeMatchType() if kind == 'probematches' else wsd_types.ResolveMatchType()
+            m.EndpointReference.Address = 'urn:e1'
+            m.MetadataVersion = 1
+            m.XAddrs.extend(D_XADDRS)
+            if mode == 1:
+                m.Types = list(D_TYPES)
+            if mode in (1, 2):
+                m.Scopes = wsd_types.ScopesType('')
+            if mode == 0:
+                m.Scopes = wsd_types.ScopesType('x:/a')
+            if kind == 'probematches':
+                p.ProbeMatch.append(m)
+            else:
+                p.ResolveMatch = m
+            node.receive(_serialize(p, MIDS[1]))
+            svc = node.wsd._remote_services.get('urn:e1')
+            if not orc.check(svc is not None, 'service-lost'):
+                return orc.result()
+            orc.check(list(svc.types or []) == list(D_TYPES), 'recorded-types-erased-by-same-version-message')
+            orc.check(svc.scopes is not None and list(svc.scopes.text) == ['x:/a'], 'recorded-scopes-erased-by-same-version-message')
+        except Exception as ex:  # noqa: BLE001
+            return exc_result(orc, ex, 'partial')
         return orc.result()
